@@ -159,7 +159,8 @@ def run_name_case(params, st, keep_log=False):
         outside = [f for f in files if not f.startswith(inside)]
         if outside:
             run.fail("cache-outside-data-home", key, f"{what}: files outside the data home "
-                     f"({'$TRAFFIC_WEAVER_DATA' if home == 'env' else '$HOME/.traffic-weaver-data'}): {outside[:3]}")
+                     f"({'$HOME/.traffic-weaver-data' if home == 'default' else '$TRAFFIC_WEAVER_DATA=' + run.env_value}): "
+                     f"{outside[:3]}")
         if not [f for f in files if f.startswith(inside)]:
             run.fail("nothing-cached", key, f"{what}: no cache entry was created under the data home")
         for b in run.sim.actors:
@@ -184,7 +185,7 @@ def run_unknown(params, st, keep_log=False):
     elif how == 3:
         bad = ""
     elif how == 4:
-        bad = base + " "
+        bad = base + "_v2"
     elif how == 5:
         bad = base.split("_")[0].split("-")[0] + "_dataset_description"
     elif how == 6:
@@ -317,7 +318,8 @@ def plan(tier, verif_seed):
         for variant in ("doc", "underscore", "dash", "mixed", "mixed"):
             for unpack in (False, True):
                 units.append({"gen": "name", "name": name, "variant": variant, "unpack": unpack, "home": "env"})
-        units.append({"gen": "name", "name": name, "variant": "doc", "unpack": False, "home": "default"})
+        for home in ("default", "env-tilde", "env-slash", "env-rel"):
+            units.append({"gen": "name", "name": name, "variant": "doc", "unpack": False, "home": home})
     units.extend({"gen": "all", "home": "env"} for _ in range(2 if tier == "quick" else 24))
     units.append({"gen": "all", "home": "default"})
     units.extend({"gen": "unknown"} for _ in range(300 if tier == "quick" else 5000))
